@@ -30,3 +30,11 @@ for _dot in (0, 1):
       bounds={"assets": "one (URL %s an extension)" % ("with" if _dot else "without"), "format": "any"},
       functions=["opendocument_manifest_file"], callees={"d_string_*": "contract stubs (formatter arguments must be valid strings; the URL is not written)", "HASH_ITER (uthash)": "real macro code over a real one-entry table", "opendocument_style": "stub"},
       min_obligations=10, timeout=300, cost=10, assumptions=[NOFAIL])
+
+U("c09_traverse_for_images_offsets", ["C09"], "h_traverse", ["C09/traverse.c"], ["textbundle.c", "stack.c"], plain=True, lib=("lib/libc_models.c",), kind="bounded", drop_bodies=["stack_push"],
+  defines=["-DI18N_DISABLED=1"], cbmc_flags=["--unwind", "70", "--unwinding-assertions", "--object-bits", "12"],
+  bounds={"shape": "one reference-style image definition followed by one inline image, both naming the one stored asset", "spans, length changes": "symbolic"},
+  functions=["traverse_for_images"],
+  callees={"d_string_replace_text_in_range": "contract stub (C19): returns the length change; checks the range it is given", "clean_string": "contract stub", "HASH_FIND_STR (uthash)": "real macro code over a real one-entry table",
+           "stack_peek_index/stack_new": "body", "memcpy": "byte-loop model"},
+  min_obligations=10, timeout=300, cost=15, assumptions=[NOFAIL])
